@@ -127,16 +127,16 @@ func constructs(route, lib string, v vu.Val, t vu.Type, explicit bool) []string 
 				anyAddr = true
 			}
 		}
-		if lib == "vm" && anyIdx && (route == "api" || route == "as" || route == "let") {
+		if lib == "vm" && anyIdx && (route == "api" || route == "as" || route == "let" || route == "letget") {
 			out = append(out, cVMPathIdx)
 		}
-		if lib == "tree" && (route == "api" || route == "as" || route == "let") && anyAddr {
+		if lib == "tree" && (route == "api" || route == "as" || route == "let" || route == "letget") && anyAddr {
 			out = append(out, cTreePath)
 		}
 	}
 	// the interpreter reports every rejection as a fatal error: any pair it may reject (a
 	// non-conforming one, or one that needs a conversion without an explicit cast) is affected
-	if lib == "tree" && (route == "as" || route == "let") && (!conf || (!explicit && !vu.HasType(v, t))) {
+	if lib == "tree" && (route == "as" || route == "let" || route == "letget") && (!conf || (!explicit && !vu.HasType(v, t))) {
 		out = append(out, cTreeFatal)
 	}
 	if route == "host-arg" && conf && !vu.HasType(v, t) {
@@ -173,6 +173,11 @@ func routeCarries(route string, v vu.Val) bool {
 	case "as", "let":
 		_, ok := vu.JSONText(v)
 		return ok
+	case "letget":
+		// the value travels as `ao.get("k")` (a ?any holding it): JSON null would be read back as a
+		// null value inside Some, which the plain let route does not model
+		_, ok := vu.JSONText(v)
+		return ok && v.K != vu.VNull && v.K != vu.VNone
 	case "host-ret":
 		nt, ok := vu.NaturalType(v)
 		if !ok {
@@ -279,6 +284,10 @@ func (c12) Cases(tier string, seed uint64) []fw.Case {
 			for _, route := range []string{"as", "let"} {
 				add(payload{Route: route, Lib: lib, T: t, Width: width, Avoid: avoid, Max: progMax, Seed: r.Next()})
 			}
+			if t.K == vu.TOpt {
+				// an option-typed let fed from `{?}.get(k)` (static type ?any)
+				add(payload{Route: "letget", Lib: lib, T: t, Width: width, Avoid: avoid, Max: progMax, Seed: r.Next()})
+			}
 		}
 		add(payload{Route: "host-arg", Lib: "vm", T: t, Width: width, Avoid: avoid, Max: hostMax, Seed: r.Next()})
 		add(payload{Route: "host-ret", Lib: "vm", T: t, Width: width, Avoid: avoid, Max: hostMax, Seed: r.Next()})
@@ -363,7 +372,7 @@ func (c12) Run(c fw.Case) (res fw.Result) {
 		for _, q := range pairs {
 			j.api(q)
 		}
-	case "as", "let":
+	case "as", "let", "letget":
 		for _, q := range pairs {
 			j.prog(q)
 		}
